@@ -218,14 +218,20 @@ func (p *provider) Close() error {
 
 	for _, s := range scopes {
 		if s != nil {
-			if err := s.Close(); err != nil {
-				errors = append(errors, fmt.Errorf("scope %s: %w", s.ID(), err))
-			}
+			err := s.Close()
 
 			// The scope may be in the middle of being closed by someone else: every
-			// scope must be completely disposed before the singletons are
+			// scope must be completely disposed before the singletons are, and what
+			// failed there is reported here as well
 			verifGate("P_waitscope", p, s)
 			<-s.done
+			if err == nil {
+				err = s.closeErr
+			}
+
+			if err != nil {
+				errors = append(errors, fmt.Errorf("scope %s: %w", s.ID(), err))
+			}
 		}
 	}
 
